@@ -6,10 +6,6 @@ FAMILIES = [
     {"name": "antecom", "family": "antecom", "group": "ante", "driver": "drv_ante", "n_quick": 15000, "n_thorough": 100000, "seeds_thorough": 3},
     {"name": "antetx", "family": "antetx", "group": "ante", "driver": "drv_ante", "n_quick": 1500, "n_thorough": 12000, "seeds_thorough": 3},
 ]
-# directed reproducer of finding F23 (known_findings.json): two delegations to one validator in ONE transaction, each
-# below 6.6 % against the state the transaction starts from, together above it (tag ante.deliver.power.cumulative)
-FAMILIES.append({"name": "antetx-cumulative", "family": "antetx", "group": "ante", "driver": "drv_ante", "n_quick": 3, "n_thorough": 3,
-                 "args": ["-replay", "cumulative"]})
 CHK_PREDS = ["c19."]
 RULE = ("antefee: the real AdjustGasPriceDecorator.AnteHandle on transactions of 0-4 top-level messages drawn from all 89 message types the app "
         "registers (half of them from the nine floored kinds), each possibly an authz.MsgExec tree of depth <= 3 (10%: <= 6), fee coins around "
@@ -18,7 +14,8 @@ RULE = ("antefee: the real AdjustGasPriceDecorator.AnteHandle on transactions of
         "antecom: the real ValidateMinCommissionDecorator.AnteHandle against staking-keeper state with 0-25 validators (bonded/unbonded/unbonding, "
         "tokens 0..2^100), create/edit validator with rates around 5%, (re)delegations with amounts within +-2 of the 6.6% boundary, unknown and "
         "malformed validator addresses, trees as above. antetx: full app, signed txs through DeliverTx, one per block, 20 validators of 5% each: "
-        "sends/multisends/proposals, validator edits/creations, (re)delegations, direct and wrapped to depth 3; executed effects observed. "
+        "sends/multisends/proposals, validator edits/creations, (re)delegations, direct and wrapped to depth 3, a third of the delegations split over 2-3 messages of one "
+        "transaction (one of them wrapped) with the sum at the boundary; executed effects observed. "
         "non-trivial = distinct operation line (distinct transaction and state).")
 TRUSTED_BASE = [
     "Lean 4.33.0 kernel; axioms propext, Classical.choice, Quot.sound (audited per theorem on every run)",
@@ -35,12 +32,13 @@ ASSUMPTIONS = [
     "SubmitProposalFee >= 0 (sdk.Uint)",
     "fee coin amounts >= 0 (tx.ValidateBasic); staking amounts >= 0 (MsgDelegate/MsgBeginRedelegate.ValidateBasic, also applied by MsgExec.ValidateBasic to wrapped messages)",
     "validator tokens and pool balances >= 0",
-    "clause 3 is about the state the transaction starts from (the ante handler runs before any message executes): each (re)delegation is judged on its own; "
-    "see UNPROVED for several delegations to one validator inside one transaction",
+    "clause 3: every (re)delegation is judged against the stake as it will be when it executes = the state the transaction starts from plus what its earlier messages add "
+    "(pendingStake, F23 repair); that the earlier messages execute exactly as announced is staking's behaviour (modelled, observed by family antetx)",
+    "sums of admitted amounts stay below 2^255 (sdk.Int.Add would panic; the model uses unbounded integers)",
 ]
 UNPROVED = [
-    "cumulative effect of several (re)delegations to the same validator within ONE transaction: each passes the per-message test against the pre-transaction state, "
-    "their sum may cross 6.6% (not modelled as a violation here: the decorators are per message by design; reported to the lead as an observation)",
+    "a redelegation's source validator loses tokens and a MsgUndelegate / MsgCreateValidator of the same transaction changes nobody's share upward; these are ignored "
+    "(conservative): the theorem bounds every validator that RECEIVES stake through the transaction by tokens-before + everything the transaction adds to it",
     "that DeliverTx runs these two decorators on every transaction and that authz executes exactly the wrapped messages is modelled (trusted base), exercised by family antetx, not proved",
     "fee floors of message kinds the property does not name (e.g. MsgAddLiquidityToRewardsBucket, which the code also floors) are not part of the theorem",
 ]
@@ -51,7 +49,7 @@ MANIFEST = {
             "registered message types and by judging executed effects of signed transactions through DeliverTx with the theorems' own predicates.",
     "note": "Proved for all transactions/nestings/fees/stakes: accepted by the modelled decorators => floors, 5%, 6.6% hold for every wrapped message. Tested only: that the "
             "model equals the Go decorators (differential), that DeliverTx applies them and authz executes exactly the wrapped messages (L2 effects). Trusted: Lean kernel, "
-            "fact translator's shape recognition, harness, cosmos-sdk. Per-message semantics of the 6.6% rule (several delegations in one tx are not summed).",
+            "fact translator's shape recognition, harness, cosmos-sdk. The 6.6% rule is cumulative over the messages of a transaction (pendingStake).",
     "technique": "Lean 4 proof over regenerated facts + differential correspondence (model vs real Go) + L2 executed-effect predicates",
     "design_ref": "4/C19",
 }
